@@ -155,6 +155,9 @@ func (s *SFlow) run() {
 		atomic.AddUint64(&s.stats.UDPCount, 1)
 		sFlowUDPCh <- SFUDPMsg{raddr, b[:n]}
 	}
+
+	// no more datagrams are queued: let the workers finish and leave
+	close(sFlowUDPCh)
 }
 
 func (s *SFlow) shutdown() {
@@ -169,7 +172,6 @@ func (s *SFlow) shutdown() {
 	time.Sleep(1 * time.Second)
 	s.conn.Close()
 	logger.Println("sFlow has been shutdown")
-	close(sFlowUDPCh)
 }
 
 func (s *SFlow) sFlowWorker(wQuit chan struct{}) {
